@@ -138,6 +138,39 @@ def generate(repo):
     A('/-- the result carries the wavelength / value unit of the left operand (`true`) or of the right one (`false`) -/')
     A(f'def ufuncResultWaveUnitFromSelf : Bool := {side(ru[0], "waveunit")}')
     A(f'def ufuncResultValueUnitFromSelf : Bool := {side(ru[1], "valueunit")}')
+    # ---- _intersect: which grid points belong to an operand (range test with the guard band), and its use in _interp_common
+    fi = [n for n in tree.body if isinstance(n, ast.FunctionDef) and n.name == '_intersect']
+    if not fi: raise Refuse('_intersect not found')
+    ib = [st for st in fi[0].body if not (isinstance(st, ast.Expr) and isinstance(st.value, ast.Constant))]
+    if [a.arg for a in fi[0].args.args] != ['subset', 'superset', 'tol']: raise Refuse('_intersect: parameters')
+    if not (len(ib) == 1 and isinstance(ib[0], ast.Return) and isinstance(ib[0].value, ast.Call) and ast.unparse(ib[0].value.func) == 'np.where' and len(ib[0].value.args) == 1):
+        raise Refuse('_intersect: body is not `return np.where(<test>)`')
+    tst = ib[0].value.args[0]
+    if not (isinstance(tst, ast.BinOp) and isinstance(tst.op, ast.BitAnd)): raise Refuse('_intersect: test is not `a & b`')
+    CMPS = {ast.Gt: '>', ast.Lt: '<', ast.GtE: '≥', ast.LtE: '≤'}
+    def iex(e):
+        k = ast.unparse(e)
+        if k == 'superset': return 'w'
+        if k == 'subset.min()': return 'lo'
+        if k == 'subset.max()': return 'hi'
+        if k == 'tol': return 'tol'
+        if isinstance(e, ast.BinOp) and type(e.op) in (ast.Add, ast.Sub): return f"({iex(e.left)} {'+' if isinstance(e.op, ast.Add) else '-'} {iex(e.right)})"
+        raise Refuse(f'_intersect: term {k}')
+    def icmp(e):
+        if not (isinstance(e, ast.Compare) and len(e.ops) == 1 and type(e.ops[0]) in CMPS): raise Refuse(f'_intersect: comparison {ast.unparse(e)}')
+        return f'decide ({iex(e.left)} {CMPS[type(e.ops[0])]} {iex(e.comparators[0])})'
+    A(f'\n/-- `_intersect(subset, superset, tol)`: a grid point `w` is kept when `{ast.unparse(tst)}` (lo/hi = subset.min()/max()) -/')
+    A(f'def intersectKeeps (lo hi tol w : Rat) : Bool := {icmp(tst.left)} && {icmp(tst.right)}')
+    uses = {}
+    for st in body:
+        if isinstance(st, ast.Assign) and isinstance(st.value, ast.Call) and ast.unparse(st.value.func) == '_intersect':
+            uses[ast.unparse(st.targets[0])] = ast.unparse(st.value)
+    if uses != {'s1_index': '_intersect(s1.wave, commonwave, tol)', 's2_index': '_intersect(s2.wave, commonwave, tol)'}: raise Refuse(f'_interp_common: _intersect calls {uses}')
+    clips = {}
+    for st in body:
+        if isinstance(st, ast.Assign) and isinstance(st.value, ast.Call) and ast.unparse(st.value.func) == 'np.clip':
+            clips[ast.unparse(st.targets[0])] = ast.unparse(st.value)
+    if clips != {'s1_wave': 'np.clip(commonwave[s1_index], s1.wave.min(), s1.wave.max())', 's2_wave': 'np.clip(commonwave[s2_index], s2.wave.min(), s2.wave.max())'}: raise Refuse(f'_interp_common: clip calls {clips}')
     return '\n'.join(L) + '\n', {'assignments': order, 'sampling': sel, 'elementwise': types}
 
 MODULES = [{'name': 'InterpGrid', 'src': SRC, 'generator': generate, 'props': ['C13']}]
